@@ -726,9 +726,19 @@ def r6_score_units(repo, report):
     from ..repo import expand
 
     c, mk = repo.need_method("AdapterIndex", "_make_index")
-    stored = sorted({src(n.value) for n in ast.walk(mk) if isinstance(n, ast.Assign) and isinstance(n.targets[0], ast.Subscript) and chain(n.targets[0].value) == "index" and isinstance(n.value, ast.Tuple)})
-    if stored != ["(adapter, errors, matches)"]:
-        raise Unrecognised(f"_make_index stores {stored}, expected (adapter, errors, matches)", repo.loc(mk))
+    # what an entry holds, by role (not by the names of the locals): (adapter, errors, matches) - in the indel-free branch
+    # the third component is defined as  <length> - <second component>
+    stores = [n for n in ast.walk(mk) if isinstance(n, ast.Assign) and isinstance(n.targets[0], ast.Subscript) and isinstance(n.targets[0].value, ast.Name) and isinstance(n.value, ast.Tuple) and len(n.value.elts) == 3
+              and all(isinstance(e_, ast.Name) for e_ in n.value.elts)]
+    stored = sorted({src(n.value) for n in stores})
+    is_matches = False
+    for st in stores:
+        e2, e3 = st.value.elts[1].id, st.value.elts[2].id
+        for d in ast.walk(mk):
+            if isinstance(d, ast.Assign) and isinstance(d.targets[0], ast.Name) and d.targets[0].id == e3 and isinstance(d.value, ast.BinOp) and isinstance(d.value.op, ast.Sub) and isinstance(d.value.right, ast.Name) and d.value.right.id == e2:
+                is_matches = True
+    if len(stores) < 2 or len(stored) != 1 or not is_matches:
+        raise Unrecognised(f"_make_index: entries {stored} are not recognisable as (adapter, errors, matches = length - errors)", repo.loc(mk))
     problems = []
     sites = 0
     for mname in ("_match_to_one_length", "_match_to_multiple_lengths"):
